@@ -45,6 +45,9 @@ def r1(run: Run, src, rt):
     ex = src.cls('Executor')
     init = ex.methods.get('__init__')
     sc = ex.methods.get('set_cells')
+    if sc is not None:
+        from .common import inlined_function
+        sc = inlined_function(src, 'Executor.set_cells')       # helpers such as a size-bookkeeping method are analysed in place
     fl = ex.methods.get('_set_cells_to_executed_instance')
     if not (init and sc and fl):
         raise AnalysisError('C04.R1', 'Executor.__init__/set_cells/_set_cells_to_executed_instance not found')
@@ -117,7 +120,16 @@ def r1(run: Run, src, rt):
     parents = parent_map(sc.node)
     conds_u = [ast.unparse(t) for t, pol in path_conditions(sc.node, upd_stmt if isinstance(upd_stmt, ast.AST) else sc.node, parents)]
     in_loop_ok = not conds_u
-    run.check(normal_exits_pass(sc.node.body, is_update) and in_loop_ok, 'C04.R1', 'Executor.set_cells/unconditional-store',
+    # a store per cell inside `for cell in <batch>` (unconditional in the loop body) stores the whole batch, in arrival order
+    per_cell_loop = False
+    q = parents.get(upd_stmt) if isinstance(upd_stmt, ast.AST) else None
+    while q is not None and not isinstance(q, ast.stmt):
+        q = parents.get(q)
+    if isinstance(q, ast.For) and ast.unparse(q.iter) == cells_param and q in sc.node.body and not q.orelse and \
+            not any(isinstance(n, (ast.Break, ast.Continue, ast.Return)) for n in ast.walk(q)) and (upd_stmt in q.body or any(
+                upd_stmt is getattr(st, 'value', None) for st in q.body)):
+        per_cell_loop = True
+    run.check((normal_exits_pass(sc.node.body, is_update) or per_cell_loop) and in_loop_ok, 'C04.R1', 'Executor.set_cells/unconditional-store',
               'store-skipped', f'the override store is not updated on every path through set_cells (conditions: {conds_u}): some '
               f'batches (e.g. a value equal to the stored one under ==, such as 1 and TRUE) are dropped',
               fact='every batch is merged', loc=loc)
@@ -151,20 +163,100 @@ def r1(run: Run, src, rt):
         if fn is None:
             run.bad('C04.R1', f'set_arguments[{cp.label}]', 'missing', 'set_arguments missing', loc=cp.path)
             continue
-        ups = [s for s in ast.walk(fn) if isinstance(s, ast.Assign) and any(isinstance(t, ast.Attribute) and t.attr == '_arguments'
-                                                                            for t in s.targets)]
-        if len(ups) != 1:
-            raise AnalysisError('C04.R1', f'set_arguments[{cp.label}] updates _arguments {len(ups)} times')
-        order, new = _merge_order(ups[0].value, 'self._arguments')
-        run.check(order == 'old-then-new', 'C04.R1', f'set_arguments[{cp.label}]/merge-order', f'merge:{order}',
-                  f'`{ast.unparse(ups[0])[:90]}`: new arguments must come last so that they replace older ones', fact='{**old, **new}',
-                  loc=cp.loc(ups[0]))
-        if new is not None:
-            p = [a.arg for a in fn.args.args if a.arg != 'self'][0]
-            keyed = isinstance(new, ast.DictComp) and ast.unparse(new.key).endswith("['uid']") and \
-                ast.unparse(new.value).endswith("['value']") and ast.unparse(new.generators[0].iter) == p and not new.generators[0].ifs
-            run.check(keyed, 'C04.R1', f'set_arguments[{cp.label}]/key', 'argument-key',
-                      f'the new arguments are `{ast.unparse(new)[:70]}`', fact="{i['uid']: i['value'] for i in arguments}", loc=cp.loc(ups[0]))
+        p = [a.arg for a in fn.args.args if a.arg != 'self'][0]
+        layers = _argument_layers(fn, p)
+        shown = ' then '.join(layers)
+        run.check(layers == ['old', 'new'], 'C04.R1', f'set_arguments[{cp.label}]/merge-order', f'merge:{"-".join(layers)}',
+                  f'after set_arguments the override map is built from [{shown}]: it must be the previous map with the new arguments '
+                  f'(every one of them, keyed by its uid) laid over it, so that a new write replaces an older one', fact='old then new',
+                  loc=cp.loc(fn))
+
+
+def _argument_layers(fn: ast.FunctionDef, param: str) -> list:
+    """what self._arguments consists of after the call, as an ordered list of layers: 'old' = the previous map, 'new' = every
+    item of the parameter keyed by item['uid'] with item['value'] (later layers win).  Straight-line code, dict displays with **,
+    |, dict()/copy(), update(), comprehensions over the parameter and per-item stores in a loop over the parameter are followed;
+    anything else is unmodelled (AnalysisError)."""
+    env: dict = {}
+
+    def is_new_comp(e):
+        if not (isinstance(e, ast.DictComp) and len(e.generators) == 1 and not e.generators[0].ifs and
+                ast.unparse(e.generators[0].iter) == param and isinstance(e.generators[0].target, ast.Name)):
+            return False
+        v = e.generators[0].target.id
+        return ast.unparse(e.key) == f"{v}['uid']" and ast.unparse(e.value) == f"{v}['value']"
+
+    def ev(e):
+        txt = ast.unparse(e)
+        if txt == 'self._arguments':
+            return list(env.get('self._arguments', ['old']))
+        if isinstance(e, ast.Name) and e.id in env:
+            return list(env[e.id])
+        if isinstance(e, ast.Dict):
+            out = []
+            for k, v in zip(e.keys, e.values):
+                if k is not None:
+                    raise AnalysisError('C04.R1', f'set_arguments: literal entries in `{txt[:50]}`')
+                out += ev(v)
+            return out
+        if isinstance(e, ast.BinOp) and isinstance(e.op, ast.BitOr):
+            return ev(e.left) + ev(e.right)
+        if isinstance(e, ast.Call) and isinstance(e.func, ast.Name) and e.func.id == 'dict' and len(e.args) <= 1 and not e.keywords:
+            return ev(e.args[0]) if e.args else []
+        if isinstance(e, ast.Call) and isinstance(e.func, ast.Attribute) and e.func.attr == 'copy' and not e.args:
+            return ev(e.func.value)
+        if is_new_comp(e):
+            return ['new']
+        if isinstance(e, ast.DictComp):
+            return ['filtered-or-rekeyed-new']
+        raise AnalysisError('C04.R1', f'set_arguments: unmodelled expression `{txt[:60]}`')
+
+    def store(target, layers):
+        env[ast.unparse(target)] = layers
+    for st in fn.body:
+        if isinstance(st, ast.Expr) and isinstance(st.value, ast.Constant):
+            continue
+        if isinstance(st, (ast.Assign, ast.AnnAssign)):
+            if isinstance(st, ast.AnnAssign) and st.value is None:
+                continue
+            targets = st.targets if isinstance(st, ast.Assign) else [st.target]
+            val = ev(st.value)
+            for t in targets:
+                store(t, val)
+            continue
+        if isinstance(st, ast.AugAssign) and isinstance(st.op, ast.BitOr):
+            store(st.target, ev(st.target) + ev(st.value))
+            continue
+        if isinstance(st, ast.Expr) and isinstance(st.value, ast.Call) and isinstance(st.value.func, ast.Attribute) and \
+                st.value.func.attr == 'update' and len(st.value.args) == 1:
+            tgt = st.value.func.value
+            store(tgt, ev(tgt) + ev(st.value.args[0]))
+            continue
+        if isinstance(st, ast.For) and ast.unparse(st.iter) == param and isinstance(st.target, ast.Name) and not st.orelse:
+            v = st.target.id
+            local = {}
+            done = None
+            for b in st.body:
+                if isinstance(b, ast.Assign) and len(b.targets) == 1 and isinstance(b.targets[0], ast.Name):
+                    local[b.targets[0].id] = ast.unparse(b.value)
+                    continue
+                if isinstance(b, ast.Assign) and len(b.targets) == 1 and isinstance(b.targets[0], ast.Subscript):
+                    key = ast.unparse(b.targets[0].slice)
+                    val = ast.unparse(b.value)
+                    key = local.get(key, key)
+                    val = local.get(val, val)
+                    if key == f"{v}['uid']" and val == f"{v}['value']":
+                        done = b.targets[0].value
+                        continue
+                raise AnalysisError('C04.R1', f'set_arguments: unmodelled loop body `{ast.unparse(b)[:60]}`')
+            if done is None:
+                raise AnalysisError('C04.R1', 'set_arguments: the loop over the arguments stores nothing')
+            store(done, ev(done) + ['new'])
+            continue
+        if isinstance(st, (ast.Return, ast.Pass)):
+            continue
+        raise AnalysisError('C04.R1', f'set_arguments: unmodelled statement `{ast.unparse(st)[:60]}`')
+    return env.get('self._arguments', ['old'])
 
 
 def r2(run: Run, rt):
@@ -254,7 +346,8 @@ def r2(run: Run, rt):
 
 def r3(run: Run, src):
     ex = src.cls('Executor')
-    sc = ex.methods.get('set_cells')
+    from .common import inlined_function
+    sc = inlined_function(src, 'Executor.set_cells')
     fields = cell_field_order(src)
     # no membership / bounds test that rejects or skips cells
     bad = []
@@ -272,6 +365,8 @@ def r3(run: Run, src):
     p = sc.params[1]
     rc = RoleChecker(sc.node, {p: None}, fields, self_attrs={'self._sheets_size': Sizes(0)}, qual=sc.qualname)
     loops = [n for n in sc.node.body if isinstance(n, ast.For) and ast.unparse(n.iter) == p]
+    # the loop that normalises the cells and grows the sizes (a further loop may store them)
+    loops = [l for l in loops if 'handle_cell' in ast.unparse(l) or 'last_row' in ast.unparse(l)] or loops
     if len(loops) != 1:
         raise AnalysisError('C04.R3', 'set_cells does not loop once over its cells')
     lv = loops[0].target.id
